@@ -51,7 +51,25 @@ var (
 	uniOnce   sync.Once
 	uni       *world.Universe
 	baseSpace *vkv.Space
+	// second universe: 1 MB blocks, pools larger than a block
+	uniBig  *world.Universe
+	baseBig *vkv.Space
 )
+
+// multi-step families on the big universe: the producer mines until its pool
+// is empty (at most Steps times); Arrive is submitted while the first block is
+// being computed (Consensus.CalculateBlock), i.e. between packing and play.
+var bigFamilies = []struct {
+	Name   string
+	Txs    []string
+	Arrive string
+	Steps  int
+}{
+	{"pool_larger_than_block", []string{"b1", "b2", "b3", "b4"}, "", 4},
+	{"pool_larger_than_block_plus_small", []string{"b1", "b2", "b3", "b4", "tA"}, "", 4},
+	{"arrival_while_block_is_computed", []string{"b1"}, "tA", 3},
+	{"arrival_of_dependent_while_block_is_computed", []string{"b1", "b2"}, "b3", 4},
+}
 
 func setup() {
 	uniOnce.Do(func() {
@@ -67,7 +85,25 @@ func setup() {
 		b.W.State.Close()
 		b.W.Ledger.Close()
 		baseSpace = b.W.Space
+		uniBig = world.UniverseC13Big()
+		bb := chain.New(uniBig, chain.Menu{})
+		for _, ev := range []string{"recv:k1", "sync"} {
+			if o := bb.Apply(ev); strings.HasPrefix(o, "ERR") || strings.HasPrefix(o, "refused") {
+				panic("c13 big fixture: " + ev + ": " + o)
+			}
+		}
+		bb.W.State.Close()
+		bb.W.Ledger.Close()
+		baseBig = bb.W.Space
 	})
+}
+
+func newBigNode() *chain.Inst {
+	w, err := world.Open(uniBig.Cfg, baseBig.Clone(), uniBig.Hook)
+	if err != nil {
+		panic(err)
+	}
+	return chain.NewOn(uniBig, w, []string{"k1"}, chain.Menu{})
 }
 
 func newNode() *chain.Inst {
@@ -139,6 +175,10 @@ type Case struct {
 	Family string           `json:"family"`
 	Submit []string         `json:"submit"`
 	Orders map[string][]int `json:"orders"` // site label -> permutation index list
+	// multi-step cases on the big universe
+	Big    bool   `json:"big,omitempty"`
+	Arrive string `json:"arrive,omitempty"`
+	Steps  int    `json:"steps,omitempty"`
 }
 
 var sites = []string{"SortUnconfirmedTx#1", "TopSortDFS#1", "TopSortDFS#2"}
@@ -272,6 +312,102 @@ func minInt(a, b int) int {
 	return b
 }
 
+// runBig: pool larger than a block / arrival while the block is computed. The
+// producer mines until its pool is empty; the replica receives every block
+// after a wire round trip; the states must be equal and every block must carry
+// a dependency-closed prefix of the pool.
+func runBig(c Case) (res result) {
+	defer func() {
+		if r := recover(); r != nil {
+			res.violation = append(res.violation, core.Violation{Key: "c13.panic", Summary: fmt.Sprintf("panic: %v", r)})
+		}
+	}()
+	vhook.Capture()
+	vhook.Discard()
+	inst := newBigNode()
+	defer inst.Close()
+	w := inst.W
+	u := uniBig
+	bad := func(key, f string, a ...interface{}) {
+		res.violation = append(res.violation, core.Violation{Key: key, Summary: fmt.Sprintf("family %s, submitted %v, arriving %q: ", c.Family, c.Submit, c.Arrive) + fmt.Sprintf(f, a...), Case: c})
+	}
+	for _, tn := range c.Submit {
+		if err := w.Submit(u.Tx(tn)); err != nil {
+			res.skipped = "submission not admissible: " + tn + ": " + err.Error()
+			return
+		}
+	}
+	m, kind, _ := producerMiner(w)
+	res.consKind = kind
+	arrived := false
+	w.Chain.Consensus = stubConsensus{onCalc: func() {
+		if c.Arrive != "" && !arrived {
+			arrived = true
+			if err := w.Submit(u.Tx(c.Arrive)); err != nil {
+				bad("c13.fixture", "arriving tx refused: %v", err)
+			}
+		}
+	}}
+	ctx := &xctx.BaseCtx{XLog: w.Log, Timer: timer.NewXTimer()}
+	var blocks []*pb.InternalBlock
+	for step := 0; step < c.Steps; step++ {
+		if step > 0 {
+			if p, _ := w.State.GetUnconfirmedTx(false); len(p) == 0 {
+				break
+			}
+		}
+		if err := m.VMining(ctx); err != nil {
+			vhook.Discard()
+			bad("c13.mining_failed", "producer step %d failed: %v", step+1, err)
+			return
+		}
+		vhook.Discard()
+		blk, err := w.Ledger.QueryBlock(w.Ledger.GetMeta().TipBlockid)
+		if err != nil {
+			bad("c13.no_block", "%v", err)
+			return
+		}
+		blocks = append(blocks, world.CloneBlock(blk))
+		var names []string
+		for _, t := range blk.Transactions {
+			names = append(names, u.Names.Of(t.Txid))
+		}
+		res.block = append(res.block, "["+strings.Join(names, " ")+"]")
+	}
+	if p, _ := w.State.GetUnconfirmedTx(false); len(p) != 0 {
+		var names []string
+		for _, t := range p {
+			names = append(names, u.Names.Of(t.Txid))
+		}
+		bad("c13.pool_not_drained", "after %d producer steps the pool still holds %v (blocks %v)", c.Steps, names, res.block)
+		return
+	}
+	rinst := newBigNode()
+	defer rinst.Close()
+	r := rinst.W
+	for k, blk := range blocks {
+		wire := world.WireBlock(blk)
+		if ok, _ := r.Ledger.VerifyBlock(wire, "c13"); !ok {
+			bad("c13.replica.verify_block", "replica's VerifyBlock refuses block %d %s", k+1, res.block[k])
+			return
+		}
+		if st := r.Ledger.ConfirmBlock(wire, false); !st.Succ {
+			bad("c13.replica.confirm", "replica's ConfirmBlock refuses block %d %s", k+1, res.block[k])
+			return
+		}
+		if err := r.State.Walk(wire.Blockid, false); err != nil {
+			vhook.Discard()
+			bad("c13.replica.walk_refused", "block %d of %v cannot be replayed on a node that never saw its transactions: %v", k+1, res.block, err)
+			return
+		}
+		vhook.Discard()
+	}
+	if d := chain.Diff(chain.Observe(inst, w), chain.Observe(rinst, r)); len(d) > 0 {
+		bad("c13.replica.state_differs", "after blocks %v the replica's state differs from the producer's: %s", res.block, strings.Join(d[:minInt(len(d), 3)], " | "))
+	}
+	return
+}
+
 // orderViolation checks: every tx after the producers of what it consumes and
 // before any tx that overwrites a key version it only read.
 func orderViolation(pool []*pb.Transaction) string {
@@ -316,7 +452,9 @@ func orderViolation(pool []*pb.Transaction) string {
 }
 
 // stub consensus with the answers of `single`.
-type stubConsensus struct{}
+type stubConsensus struct {
+	onCalc func()
+}
 
 func (stubConsensus) CompeteMaster(height int64) (bool, bool, error) { return true, false, nil }
 func (stubConsensus) CheckMinerMatch(ctx xctx.XContext, block cctx.BlockInterface) (bool, error) {
@@ -356,6 +494,9 @@ func run(tier core.Tier) *core.Report {
 			}
 		}
 	}
+	for _, f := range bigFamilies {
+		cases = append(cases, Case{Family: f.Name, Submit: f.Txs, Big: true, Arrive: f.Arrive, Steps: f.Steps})
+	}
 	var mu sync.Mutex
 	executed, skipped := 0, 0
 	outcomes := map[string]bool{}
@@ -374,7 +515,12 @@ func run(tier core.Tier) *core.Report {
 					mu.Unlock()
 					continue
 				}
-				r := runCase(c)
+				var r result
+				if c.Big {
+					r = runBig(c)
+				} else {
+					r = runCase(c)
+				}
 				mu.Lock()
 				if r.skipped != "" {
 					skipped++
@@ -431,7 +577,12 @@ func replay(c json.RawMessage) (bool, string, error) {
 		return false, "", err
 	}
 	setup()
-	r := runCase(cs)
+	var r result
+	if cs.Big {
+		r = runBig(cs)
+	} else {
+		r = runCase(cs)
+	}
 	if r.skipped != "" {
 		return false, r.skipped, nil
 	}
